@@ -335,6 +335,19 @@ pub fn dispatch(t: &[Tok]) -> String {
                 }
             }
         }),
+        "displayf" => for_variant!(s(t, 1), T, {
+            match L!(T::try_from(b(t, 2))) {
+                Err(e) => format!("hasherr {:?}", e),
+                Ok(h) => format!(
+                    "{} {} {} {} {}",
+                    hex(format!("{:>80}", h).as_bytes()),
+                    hex(format!("{:.10}", h).as_bytes()),
+                    hex(format!("{:^150}", h).as_bytes()),
+                    hex(format!("{:*<5}", h).as_bytes()),
+                    hex(format!("{:08}", h).as_bytes())
+                ),
+            }
+        }),
         "consts" => for_variant!(s(t, 1), T, {
             format!(
                 "{} {} {} {} {} {} {}",
@@ -724,6 +737,71 @@ pub fn dispatch(t: &[Tok]) -> String {
                 Err(tlsh::GeneratorOrIOError::GeneratorError(e)) => format!("generr {:?}", e),
                 Err(tlsh::GeneratorOrIOError::IOError(e)) => format!("ioerr {:?}", e.kind()),
             }
+        }),
+        // nested V <outer n> <inner n> <k>: a reader delivering <outer n> pseudo-random bytes in reads of at most k bytes which, inside its
+        // FIRST read() and again inside a later one, itself hashes another stream (hash_stream_for) / a file (hash_file_for) of
+        // <inner n> bytes on the same thread; prints every result next to hash_buf of the same bytes
+        "nested" => for_variant!(s(t, 1), T, {
+            struct Outer<'a> {
+                state: u32,
+                remaining: usize,
+                k: usize,
+                calls: usize,
+                log: Vec<String>,
+                inner_stream: &'a dyn Fn() -> String,
+                inner_file: &'a dyn Fn() -> String,
+            }
+            impl<'a> Read for Outer<'a> {
+                fn read(&mut self, buf: &mut [u8]) -> std::io::Result<usize> {
+                    self.calls += 1;
+                    if self.calls == 1 || self.calls == 3 {
+                        self.log.push((self.inner_stream)());
+                    }
+                    if self.calls == 2 {
+                        self.log.push((self.inner_file)());
+                    }
+                    let m = self.remaining.min(self.k).min(buf.len());
+                    for x in buf[..m].iter_mut() {
+                        *x = lcg_next(&mut self.state);
+                    }
+                    self.remaining -= m;
+                    Ok(m)
+                }
+            }
+            let (on, inn, k) = (n(t, 2) as usize, n(t, 3) as usize, (n(t, 4) as usize).max(1));
+            let mut st = 99u32;
+            let inner: Vec<u8> = (0..inn).map(|_| lcg_next(&mut st)).collect();
+            let dir = std::env::var("VERIF_TMPDIR").unwrap_or_else(|_| "/tmp".to_string());
+            let path = format!("{}/verif-nested-{}-{}-{}", dir, std::process::id(), on, inn);
+            std::fs::write(&path, &inner).unwrap();
+            let show = |r: Result<T, tlsh::GeneratorOrIOError>| match r {
+                Ok(h) => format!("ok {}", bin_of(&h)),
+                Err(tlsh::GeneratorOrIOError::GeneratorError(e)) => format!("generr {:?}", e),
+                Err(tlsh::GeneratorOrIOError::IOError(e)) => format!("ioerr {:?}", e.kind()),
+            };
+            let inner_stream = || {
+                let mut cur = std::io::Cursor::new(inner.clone());
+                show(tlsh::hash_stream_for::<T, _>(&mut cur))
+            };
+            let inner_file = || show(tlsh::hash_file_for::<T, _>(&path));
+            let mut o = Outer { state: 7, remaining: on, k, calls: 0, log: vec![], inner_stream: &inner_stream, inner_file: &inner_file };
+            let outer = match tlsh::hash_stream_for::<T, _>(&mut o) {
+                Ok(h) => format!("ok {}", bin_of(&h)),
+                Err(tlsh::GeneratorOrIOError::GeneratorError(e)) => format!("generr {:?}", e),
+                Err(tlsh::GeneratorOrIOError::IOError(e)) => format!("ioerr {:?}", e.kind()),
+            };
+            let _ = std::fs::remove_file(&path);
+            let mut st2 = 7u32;
+            let od: Vec<u8> = (0..on).map(|_| lcg_next(&mut st2)).collect();
+            let want_outer = match tlsh::hash_buf_for::<T>(&od) {
+                Ok(h) => format!("ok {}", bin_of(&h)),
+                Err(e) => format!("generr {:?}", e),
+            };
+            let want_inner = match tlsh::hash_buf_for::<T>(&inner) {
+                Ok(h) => format!("ok {}", bin_of(&h)),
+                Err(e) => format!("generr {:?}", e),
+            };
+            format!("outer {} == {} ; inner {} == {}", outer, want_outer, o.log.join(" , "), want_inner)
         }),
         // --------------------------------------------------------------- EASY
         "cmpstr" => for_variant!(s(t, 1), T, {
